@@ -26,6 +26,7 @@ def run(ctx):
     n = D.rule_loop_typestate(res, "C17-R1", m)
     D.rule_accept_guard(res, "C17-R1A", m)
     D.rule_segment_ends_walk(res, "C17-R1", m)
+    D.rule_assembled_by_state(res, "C17-R1", m)  # completion (and with it the release) is decided by the segment state alone
     D.rule_default_entry_rejected(res, "C17-R1L", m)
     D.rule_buffer_growth(res, "C17-R2", m)
     D.rule_table_only_state(res, "C17-R3", m)
